@@ -44,7 +44,7 @@ struct FamKll : NoTrimReset {
   using S = datasketches::kll_sketch<Item, std::less<Item>, A>;
   static S make(int inst, const W& w) { return S((uint16_t)atoi(w[3].c_str()), std::less<Item>(), A(inst)); }
   static void update(S& s, const W& w) { s.update(Item(atoll(w[2].c_str()))); }
-  static void merge(S& s, S& o, bool mv) { if (mv) s.merge(std::move(o)); else s.merge(const_cast<const S&>(o)); }
+  static void merge(S& s, S& o, bool mv) { if (mv) s.merge(std::move(o)); else merge_lvalue(s, o); }
   static void query(S& s, const W& w) {
     if (s.is_empty()) return;   // rank/quantile queries on an empty sketch throw by contract
     volatile double r = s.get_rank(Item(atoll(w[2].c_str()))); (void)r;
@@ -60,7 +60,7 @@ struct FamFi : NoTrimReset {
   using S = datasketches::frequent_items_sketch<Item, uint64_t, ItemHash, std::equal_to<Item>, A>;
   static S make(int inst, const W& w) { return S((uint8_t)atoi(w[3].c_str()), (uint8_t)atoi(w[4].c_str()), std::equal_to<Item>(), A(inst)); }
   static void update(S& s, const W& w) { s.update(Item(atoll(w[2].c_str())), (uint64_t)strtoull(w[3].c_str(), nullptr, 10)); }
-  static void merge(S& s, S& o, bool mv) { if (mv) s.merge(std::move(o)); else s.merge(const_cast<const S&>(o)); }
+  static void merge(S& s, S& o, bool mv) { if (mv) s.merge(std::move(o)); else merge_lvalue(s, o); }
   static void query(S& s, const W& w) {
     volatile uint64_t e = s.get_estimate(Item(atoll(w[2].c_str()))); (void)e;
     auto rows = s.get_frequent_items(datasketches::NO_FALSE_POSITIVES);
